@@ -15,7 +15,7 @@ Arguments SF_bad {A}.
 Section World.
   Variable T : Type.
 
-  Record fstate := mk_fstate { fs_t : T; fs_time : N; fs_x : bool }.
+  Record fstate := mk_fstate { fs_t : T; fs_mtime : N; fs_x : bool }.
 
   Definition hentry := (T * list fstate)%type.          (* sources ticket -> remembered target states *)
   Definition history := list hentry.
@@ -72,7 +72,7 @@ End World.
 
 Arguments mk_fstate {T}.
 Arguments fs_t {T}.
-Arguments fs_time {T}.
+Arguments fs_mtime {T}.
 Arguments fs_x {T}.
 Arguments mk_rdir {T}.
 Arguments rd_exists {T}.
